@@ -233,5 +233,8 @@ class SvsInst:
             return
         self.running = False
         self.timer_rst_event.set()
+        # End this run's timer now: if start() follows before the task gets to look at `running`, it would go on
+        if self.timer_task is not None:
+            self.timer_task.cancel()
         self.ndn_app.detach_handler(self.base_prefix)
         self.timer_task = None
